@@ -447,13 +447,17 @@ func init() {
 		if !cok || len(cut) != 1 {
 			panic(pathAbort{"unsupported: symbolic strings.Trim cutset"})
 		}
-		// the common shape: q ++ x ++ q with x free of q
-		at := catAtoms(s)
-		if len(at) >= 2 && at[0].Op == "cs" && at[len(at)-1].Op == "cs" && at[0].S == cut && at[len(at)-1].S == cut {
-			inner := mkConcat(at[1 : len(at)-1]...)
-			if ex.decideBool(mkAnd(mkNot(mkPrefixOf(mkStr(cut), inner)), mkNot(mkSuffixOf(mkStr(cut), inner)))) {
-				return lower(inner)
-			}
+		// the common shape: q.. ++ x ++ ..q: strip the cut character from the constant ends
+		at := append([]*Term{}, catAtoms(s)...)
+		if len(at) >= 1 && at[0].Op == "cs" && strings.HasPrefix(at[0].S, cut) {
+			at[0] = mkStr(strings.TrimLeft(at[0].S, cut))
+		}
+		if len(at) >= 1 && at[len(at)-1].Op == "cs" && strings.HasSuffix(at[len(at)-1].S, cut) {
+			at[len(at)-1] = mkStr(strings.TrimRight(at[len(at)-1].S, cut))
+		}
+		inner := mkConcat(at...)
+		if ex.decideBool(mkAnd(mkNot(mkPrefixOf(mkStr(cut), inner)), mkNot(mkSuffixOf(mkStr(cut), inner)))) {
+			return lower(inner)
 		}
 		panic(pathAbort{"unsupported: strings.Trim on this symbolic shape"})
 	})
@@ -466,6 +470,16 @@ func init() {
 		s := strTerm(args[0])
 		if !cok {
 			panic(pathAbort{"unsupported: symbolic cutset"})
+		}
+		{
+			at := append([]*Term{}, catAtoms(s)...)
+			if at[0].Op == "cs" {
+				at[0] = mkStr(strings.TrimLeft(at[0].S, cut))
+			}
+			inner := mkConcat(at...)
+			if ex.trimmedEnds(inner, cut, true, false) {
+				return lower(inner)
+			}
 		}
 		none := []*Term{}
 		for _, ch := range cut {
@@ -494,6 +508,13 @@ func init() {
 			panic(pathAbort{"unsupported: symbolic strings.SplitN shape"})
 		}
 		s := strTerm(args[0])
+		// the first occurrence lies inside the leading constant: split there, no solver needed
+		if at := catAtoms(s); at[0].Op == "cs" {
+			if i := strings.Index(at[0].S, sep); i >= 0 {
+				rest := append([]*Term{mkStr(at[0].S[i+len(sep):])}, at[1:]...)
+				return mk([]Value{at[0].S[:i], lower(mkConcat(rest...))})
+			}
+		}
 		if !ex.decideBool(mkContains(s, mkStr(sep))) {
 			return mk([]Value{args[0]})
 		}
